@@ -1362,6 +1362,9 @@ func (r *c14Run) enumHistory(hist int, maxVariants int) {
 	for p, op := range base {
 		if op.Op == "add" || op.Op == "wp" {
 			vs = append(vs, variant{"commitFail", p, -1}, variant{"drop", p, -1})
+			for f := 0; f < nsubs; f++ {
+				vs = append(vs, variant{"shelfFail", p, -100 - f}) // call = -100-f: storage fault on subscriber f's shelf
+			}
 		}
 	}
 	for k := range calls {
@@ -1417,6 +1420,10 @@ func (r *c14Run) enumHistory(hist int, maxVariants int) {
 			}
 			if v.pos == p && v.kind == "drop" {
 				op.Drop = true
+			}
+			if v.pos == p && v.kind == "shelfFail" {
+				f := -100 - v.call
+				op.FailShelf = &f
 			}
 			before := len(h.calls)
 			line := r.emit(&op)
@@ -1651,6 +1658,134 @@ func TestVerifC14Resume(t *testing.T) {
 		os.Remove(path)
 	}
 	if err := os.WriteFile(filepath.Join(outDir, "resume.out"), []byte(strings.Join(lines, "\n")+"\n"), 0o644); err != nil {
+		t.Fatal(err)
+	}
+}
+
+// ---------------------------------------------------------------- duplicate-Add leg: two threads admit the SAME transaction
+//
+// The same transaction arrives twice (e.g. from two peers). Add#1 passes its read phase (not present, verified) and is
+// frozen there; Add#2 runs completely: commit, notification, the subscriber completes the event. Then Add#1 continues
+// into its write transaction: it must find the transaction present and admit nothing - no job re-created, nobody called
+// again (also not after a restart). A gated store freezes Add#1 right after its read transaction.
+type c14GateStore struct {
+	stoabs.KVStore
+	mu       sync.Mutex
+	armed    bool
+	arrived  chan struct{}
+	released chan struct{}
+}
+
+func (g *c14GateStore) Read(ctx context.Context, fn func(stoabs.ReadTx) error) error {
+	err := g.KVStore.Read(ctx, fn)
+	g.mu.Lock()
+	hit := g.armed
+	g.armed = false
+	g.mu.Unlock()
+	if hit {
+		close(g.arrived)
+		<-g.released
+	}
+	return err
+}
+
+func TestVerifC14DuplicateAdd(t *testing.T) {
+	outDir := os.Getenv("VERIF_OUT")
+	if outDir == "" {
+		t.Skip("VERIF_OUT not set")
+	}
+	seed, _ := strconv.ParseInt(os.Getenv("VERIF_SEED"), 10, 64)
+	rounds, _ := strconv.Atoi(os.Getenv("VERIF_ROUNDS"))
+	if rounds == 0 {
+		rounds = 8
+	}
+	logrus.StandardLogger().SetOutput(io.Discard)
+	rng := rand.New(rand.NewSource(seed*32452843 + 14))
+	dir := filepath.Join(outDir, "db-dup")
+	_ = os.MkdirAll(dir, 0o755)
+	defer os.RemoveAll(dir)
+	var lines []string
+	for round := 0; round < rounds; round++ {
+		path := filepath.Join(dir, fmt.Sprintf("d%d.db", round))
+		withPayload := rng.Intn(2) == 0
+		restart := rng.Intn(2) == 0
+		tx := CreateSignedTestTransaction(uint32(9000+round), time.Now(), nil, "application/vc+json", true)
+		payload := []byte{0, 0, byte((9000 + round) >> 8), byte(9000 + round)}
+		var mu sync.Mutex
+		calls := map[string]int{}
+		open := func() (*c14GateStore, *state, []Notifier) {
+			inner, err := bbolt.CreateBBoltStore(path, stoabs.WithNoSync())
+			if err != nil {
+				t.Fatal(err)
+			}
+			gs := &c14GateStore{KVStore: inner, arrived: make(chan struct{}), released: make(chan struct{})}
+			st, err := NewState(gs)
+			if err != nil {
+				t.Fatal(err)
+			}
+			s := st.(*state)
+			s.loadState(context.Background())
+			var ns []Notifier
+			for _, sub := range []struct{ name, ty string }{{"nats", PayloadEventType}, {"txsub", TransactionEventType}} {
+				sub := sub
+				n, err := s.Notifier(sub.name, func(ev Event) (bool, error) {
+					mu.Lock()
+					calls[sub.name]++
+					mu.Unlock()
+					return true, nil // the subscriber completes the event at once
+				}, WithPersistency(inner), WithRetryDelay(time.Hour), WithSelectionFilter(func(ev Event) bool { return ev.Type == sub.ty }))
+				if err != nil {
+					t.Fatal(err)
+				}
+				ns = append(ns, n)
+			}
+			return gs, s, ns
+		}
+		gs, s, ns := open()
+		var pl []byte
+		if withPayload {
+			pl = payload
+		}
+		gs.mu.Lock()
+		gs.armed = true
+		gs.mu.Unlock()
+		done1 := make(chan error, 1)
+		go func() { done1 <- s.Add(context.Background(), tx, pl) }() // Add#1: frozen after its read phase
+		<-gs.arrived
+		err2 := s.Add(context.Background(), tx, pl) // Add#2: complete
+		mu.Lock()
+		after2 := fmt.Sprintf("nats=%d txsub=%d", calls["nats"], calls["txsub"])
+		mu.Unlock()
+		close(gs.released)
+		err1 := <-done1
+		if restart {
+			for _, n := range ns {
+				_ = n.Close()
+			}
+			_ = gs.KVStore.Close(context.Background())
+			gs, s, ns = open()
+			for _, n := range ns {
+				_ = n.Run()
+			}
+		}
+		jobs := 0
+		for _, name := range []string{"nats", "txsub"} {
+			_ = gs.KVStore.ReadShelf(context.Background(), "_"+name+"_jobs", func(r stoabs.Reader) error {
+				return r.Iterate(func(k stoabs.Key, v []byte) error { jobs++; return nil }, stoabs.BytesKey{})
+			})
+		}
+		mu.Lock()
+		lines = append(lines, fmt.Sprintf("round=%d payload=%v restart=%v err1=%v err2=%v afterAdd2=[%s] final=[nats=%d txsub=%d] jobs=%d",
+			round, withPayload, restart, err1 == nil, err2 == nil, after2, calls["nats"], calls["txsub"], jobs))
+		mu.Unlock()
+		_ = s
+		for _, n := range ns {
+			_ = n.Close()
+		}
+		_ = gs.KVStore.Close(context.Background())
+		os.Remove(path)
+	}
+	if err := os.WriteFile(filepath.Join(outDir, "dup.out"), []byte(strings.Join(lines, "\n")+"\n"), 0o644); err != nil {
 		t.Fatal(err)
 	}
 }
